@@ -312,7 +312,22 @@ def cache_scenarios(claripy, drv, rng, solver_factories, n, report=None, tag="cs
                     if nme in byname:
                         extras.append([byname[nme] != val])
             rng.shuffle(extras)
-            for extra in extras[:8]:
+            # phase 2 (after the extras round): add constraints that kill cached models one at a time and ask again
+            followups = []
+            for _ in range(2):
+                tgt = [x for x in extras if x]
+                followups.append(rng.choice(tgt)[0] if tgt and rng.random() < 0.7 else rng.choice(forms)())
+            rounds = [("extra", x) for x in extras[:6]] + [("add", f) for f in followups]
+            for kind, item in rounds:
+                if kind == "add":
+                    ch.record("s0.add(%s)" % item)
+                    s.add(item)
+                    cs.append(item)
+                    extra = []
+                    if not u.models(cs):
+                        break
+                else:
+                    extra = item
                 allc = cs + extra
                 ms = u.models(allc)
                 vq = u.values(q)
